@@ -28,6 +28,13 @@ add("C19", "exploration", "runtime monitoring: tree snapshot diff + audit-hook (
     "Random storage histories and function-level call sequences against pre-populated stores re-opened read-only in 12 variants; every outcome is compared with the frozen dictionary, the storage trees are compared byte-for-byte (incl. mtimes) and mutating audit events / system calls are looked for.",
     "Access times are ignored; audit-hook coverage is CPython's, strace covers the rest in the thorough tier.", "DESIGN.md §4 C19")
 
+add("C02", "exploration", "runtime monitoring: execution recorder (body counts) + type-aware equality of every returned value + replayed exception class/message + recorded result type, across back-ends and modifiers",
+    "Each (value, backend, modifier) runs on a fresh store: first call, two later calls, re-use of the first value, memento result type, forget and recompute. Held = every later call was observed to be served without a body execution and equal in value and type, for all result types of the domain and 15 exception classes.",
+    "The recorder is the ground truth for body executions; equality is vf.domain.eq; exception rebuildability is decided by importing the class by name and calling it with one string.", "DESIGN.md §4 C02")
+add("C17", "exploration", "runtime monitoring: key-by-key comparison of every partition handed back (computing call, later call, cache-less re-read, first value re-used later) with the overlay closed form",
+    "Partition chains of length 1-5 with overlapping keys, both staging kinds, three parent provenances and three back-ends; every key is loaded on its own and compared with own-keys-win overlay; body counts show each level is memoized.",
+    "Overlay closed form (dict.update in chain order) and vf.domain.eq are trusted.", "DESIGN.md §4 C17")
+
 NOT_BUILT = "check not built yet in this round (design in DESIGN.md §4); will be claimed once its monitor exists"
 
 
